@@ -92,7 +92,8 @@ def _chain_goal(P, rng):
             return None
         P2 = dict(P)
         P2["goals"] = [E("eq", [E("fluent", zt["args"], name=zt["name"]), E("const", v=v2)])]
-        return P2
+        # syntactic/observational tag used only in signatures: is the consumer applicable on the STALE value of y?
+        return P2, ("stale-ok" if alt is not None else "stale-inapplicable")
     except Exception:
         return None
 
@@ -137,21 +138,22 @@ def worker(job):
     pid, P, mode, seed = job
     import unified_planning as up
 
+    chain = ""
     if isinstance(P, list):
         # chain variants (see ifun_chains): keep the first one with a usable chain goal, else the base problem
         base, variants = P[0], P[1:]
         P = base
         try:
             with time_limit(60):
-                for Q in variants:
-                    Q2 = _chain_goal(Q, random.Random(seed))
-                    if Q2 is not None:
-                        P = Q2
-                        break
+                found = [x for x in (_chain_goal(Q, random.Random(seed)) for Q in variants) if x is not None]
+                found.sort(key=lambda x: x[1] != "stale-ok")
+                if found:
+                    P, chain = found[0]
         except ImplTimeout:
             pass
 
-    rec = {"id": pid, "P": P, "keys": upj.keys_of(P), "mode": mode, "status": "", "has_plan": False, "plan": [], "skip": "", "complete": True}
+    rec = {"id": pid, "P": P, "keys": upj.keys_of(P), "mode": mode, "status": "", "has_plan": False, "plan": [], "skip": "", "complete": True,
+           "chain": chain}
     try:
         with time_limit(40):
             problem = upj.build(P)
@@ -268,7 +270,7 @@ def run(ctx):
                 continue
             seen.add((rid, clause))
             r = byid[rid]
-            ctx.violation("%s|%s" % (clause, r["mode"]), "C31 %s: %s" % (r["mode"], clause),
+            ctx.violation("%s|%s%s" % (clause, r["mode"], ("|chain:" + r["chain"]) if r.get("chain") else ""), "C31 %s: %s" % (r["mode"], clause),
                           {"clause": clause, "mode": r["mode"], "status": r["status"], "plan": r["plan"], "problem": r["P"]})
     ctx.cov["evaluations"] = len(judged)
     ctx.cov["traces_validated_against_impl"] = len(judged)
